@@ -77,8 +77,25 @@ class T3(F.TSVRecord):
     s: str
 
 
-CLASSES = {"J1": J1, "J2": J2, "J3": J3, "C3": C3, "C1": C1, "C2i": C2i, "T2": T2, "T3": T3}
-LAYOUT = {"J1": "j", "J2": "jj", "J3": "jjj", "C3": "ifs", "C1": "s", "C2i": "ssi", "T2": "ss", "T3": "ifs"}
+@dataclass
+class J2x(J2):
+    """a record class derived from another record class, adding fields (with and without defaults)"""
+    c: Any = None
+    d: Any = "dflt"
+
+
+@dataclass
+class C3x(C3):
+    t: str = ""
+
+
+@dataclass
+class T2x(T2):
+    n: int = 0
+
+
+CLASSES = {"J1": J1, "J2": J2, "J3": J3, "C3": C3, "C1": C1, "C2i": C2i, "T2": T2, "T3": T3, "J2x": J2x, "C3x": C3x, "T2x": T2x}
+LAYOUT = {"J1": "j", "J2": "jj", "J3": "jjj", "C3": "ifs", "C1": "s", "C2i": "ssi", "T2": "ss", "T3": "ifs", "J2x": "jjjj", "C3x": "ifss", "T2x": "ssi"}
 
 
 def mk(spec):
@@ -137,6 +154,8 @@ def run_roundtrip(case, ctx):
         if any(is_special(v) for v in spec[1]) or (spec[0].startswith("J") and any(is_special(x) for x in flat(spec[1]))):
             ctx.label("special-char-field")
             ctx.nontrivial = True
+    if any(a + "x" == b or b + "x" == a for a in classes for b in classes):
+        ctx.label("base-and-derived-record-class")
     if len(set(classes)) >= 2 and any(a != b for a, b in zip(classes, classes[1:])):
         ctx.label("alternating-classes")
         ctx.nontrivial = True
